@@ -4,7 +4,9 @@
     (vp_harness/c04_enum.py; thorough: all 2^17 triples per binary operation, quick: seeded 1/16 slice + boundary grid);
 (b) random exploration over all valid encodings x generated states (same generator as C03), covering the other
     encodings of each mnemonic, 16/20/24-bit forms, counted forms with I in 1..N, stack and jump forms and the
-    frame condition.
+    frame condition; the bytes that follow the instruction (NOPs / same opcode / other instruction) are generated;
+(b'') encoding grids (c03_gen.focus_heads): MVL/MVLD blocks crossing the end of internal memory, [r3++]/[--r3]
+    accesses that just fit at the top / bottom of the 1 MiB space.
 Oracle: vp_harness/c03_refsem.py (README tables) driven by the rendered text; destination values, C/Z only where
 the README flags column says affected and preservation otherwise, F bits 2..7, pointer/counter side effects, stack
 bytes, every other register unchanged, no write outside the documented set, halted only for HALT/OFF.
@@ -26,13 +28,19 @@ RULE = ("(a) for each of 14 binary 8-bit operations (ADD/SUB/ADC/SBC/AND/OR/XOR/
         "ADD/SUB over every README-documented register pair, INC/DEC r, CMPW/CMPP (m),(n)|(m),r, the other 8-bit encodings "
         "((m),n; A,(n); (n),A; (m),(n); [lmn],n) on {00,01,0F,10,7F,80,99,9A,F0,FF}^2 x carry; (b) all (prefix, opcode) "
         "pairs x generated states as in C03 (I in 1..24, thorough 1/6 up to 300; BCD operands planted for DADL/DSBL; "
-        "carry-chain patterns 00/FF/99). Non-trivial = the reference run produces a carry/borrow, a zero result, a pointer "
+        "carry-chain patterns 00/FF/99); the instruction is followed by NOPs (1/2), by another encoding of the same "
+        "(prefix, opcode) with fresh operand bytes (1/4) or by any valid encoding (1/4) -- the decoder looks one "
+        "instruction ahead; (b'') encoding grids: every MVL/MVLD (prefix, opcode, operand shape) with I in 2..24 and an "
+        "internal block crossing (FF)->(00), every (prefix, opcode, mode byte) with a [r3++]/[--r3] operand with r3 in "
+        "FFFFD..FFFFF resp. 1..3 (access just fits at the top/bottom of the 1 MiB space). Non-trivial = the reference run produces a carry/borrow, a zero result, a pointer "
         "pre/post update, a stack transfer, a taken/not-taken conditional branch or a multi-byte chain/block with I>=2; "
         "distinct = (operation, a, b, carry) for (a), (prefix, opcode, kinds, state hash) for (b).")
 
 ASSUMPTIONS = [
-    "reference = README tables read through the rendered text (c03_refsem.py); valid = decoder-accepted; NOP padding",
-    "X,Y,U,S,PC compared modulo 2^20 (README says 24 bits, Registers/PC_MASK 20): ADD r3 / INC r3 flags are not asserted when the result leaves 20 bits",
+    "reference = README tables read through the rendered text (c03_refsem.py); valid = decoder-accepted",
+    "the instruction may be followed by another valid instruction; the text that drives the reference is rendered from the instruction's own bytes + NOPs (the meaning of an encoding does not depend on the bytes after it: fusion() 'Bytes *after* instr1 ... must not affect instr1'); verdicts that vanish with NOPs behind the instruction carry the tag [depends on the following instruction]",
+    "X,Y,U,S,PC compared modulo 2^20 (README says 24 bits, Registers/PC_MASK 20); ADD r3 / INC r3: C = carry out of bit 19, Z from the 20-bit result (maintainers' tests test_add_regpair_20bit_carry_and_zero, test_inc_reg3_x_wraps_20bit; all r3 alike as in the README rows)",
+    "address-space: every data access of a judged case must use a raw address inside [0, ADDRESS_SPACE_SIZE) = 00000..FFFFF + 100000..1000FF (constants.py; the strict memory of test_llama_parity_misc raises IndexError outside, PCE500Memory maps everything >= 100000h to internal memory); the reference never denotes a location outside it (such inputs are skipped), locations/values are still compared after pycore.canon()",
     "SWAP: Z asserted, C not (README 'o o' vs test SWAP_A_non_zero_FC_unaffected); HALT/OFF: C/Z not asserted (README 'Undefined')",
     "DADL with carry-in = 1 not asserted (README '+C' vs tests NoCarryIn); DADL/DSBL only on packed-BCD operands; DADL/DSBL (n),A: first byte A then 00 (tests DADL_(m)_A_I2_*)",
     "DSLL/DSRL with I>=2: either the maintainers' compute_expected_dsll/dsrl helpers or a true one-digit decimal shift is accepted; I=1 both coincide",
@@ -57,6 +65,11 @@ def run(ctx: Ctx) -> Report:
     tasks_b = [("explore", (PROPERTY, i, shards, ctx.seed, per, imax, SALT)) for i in range(shards)]
     # interleave so that the long enumeration shards and the exploration shards share the pool evenly
     tasks: List[Any] = [("grid", (i, 8, ctx.seed)) for i in range(8)]
+    # boundary grids over encodings (c03_gen.focus_heads): block moves crossing the end of internal memory, and
+    # [r3++] / [--r3] accesses that just fit at the top / bottom of the 1 MiB space
+    fs = 8
+    tasks += [("explore", (PROPERTY, i, fs, ctx.seed, ctx.pick(6, 24), 24, SALT, "blockwrap")) for i in range(fs)]
+    tasks += [("explore", (PROPERTY, i, fs, ctx.seed, ctx.pick(1, 4), 24, SALT, "ptr-edge")) for i in range(fs)]
     for i in range(max(len(tasks_a), len(tasks_b))):
         if i < len(tasks_a):
             tasks.append(tasks_a[i])
